@@ -1,6 +1,7 @@
 ------------------------------ MODULE MC_LinAlg ------------------------------
 EXTENDS LinAlg, TLC, Json
-CONSTANTS Dg, Q, Emit, FirstBase
+CONSTANTS Dg, Q, Emit, FirstBase,
+          ZeroOrd      \* >= 1: every coefficient of that order is zero (sparse polynomials A_0 + A_2 t^2 ...); 0: none
 VARIABLES kind, b, q
 vars == <<kind, b, q>>
 
@@ -20,7 +21,7 @@ Bases == << << <<2, 1>>, <<1, 3>> >>,
             << <<1, 1, 0>>, <<1, 2, 1>>, <<0, 1, 2>> >>,
             << <<0, 1, 1>>, <<0, 0, 1>>, <<1, 0, 0>> >> >>      \* partial pivoting permutes the rows cyclically
 \* deterministic integer "noise" for higher coefficients and right-hand sides
-Noise(qq, i, j, d) == ((qq * (i + 2 * j + 3 * d + 1) + i * j + d) % 5) - 2
+Noise(qq, i, j, d) == IF ZeroOrd >= 1 /\ d = ZeroOrd + 1 THEN 0 ELSE ((qq * (i + 2 * j + 3 * d + 1) + i * j + d) % 5) - 2
 SeriesOf(base, qq, i, j, salt) == [d \in 1..Dg |-> IF d = 1 THEN RInt(base) ELSE RInt(Noise(qq + salt, i, j, d))]
 MatOf(bi, qq) == LET M == Bases[bi]  n == Len(M) IN
   Mat(n, n, LAMBDA i, j : IF kind = "solve_AU" THEN SConst(RInt(M[i + 1][j + 1]), Dg) ELSE SeriesOf(M[i + 1][j + 1], qq, i, j, 0))
